@@ -231,6 +231,22 @@ Fixpoint rot_pairs (d : dexpr) : list (op * op) :=
 
 End Pratt.
 
+(* values of trees, for any interpretation of the operators *)
+Section Eval.
+Variable op uop atom fn V : Type.
+Variable ev : op -> V -> V -> V.
+Variable evu : uop -> V -> V.
+Variable eva : atom -> V.
+Variable evf : fn -> list V -> V.
+Fixpoint eval (e : expr op uop atom fn) : V :=
+  match e with
+  | Atom _ _ _ _ a => eva a
+  | Bin _ _ _ _ o l r => ev o (eval l) (eval r)
+  | Un _ _ _ _ u x => evu u (eval x)
+  | Call _ _ _ _ f args => evf f (map eval args)
+  end.
+End Eval.
+
 Arguments TA {op uop atom fn}. Arguments TO {op uop atom fn}. Arguments TU {op uop atom fn}.
 Arguments TF {op uop atom fn}. Arguments TL {op uop atom fn}. Arguments TR {op uop atom fn}.
 Arguments TC {op uop atom fn}.
